@@ -436,7 +436,12 @@ fn gen_param_case(r: &mut Rng, idx: usize, max_inst: usize) -> Value {
 
 fn run(opts: &Opts, replay: Option<Vec<Value>>, out: &mut dyn Write) {
     let mut e = Emit { out, count: 0 };
-    let mut r = Rng::new(opts.seed ^ 0xC08);
+    // util::Rng streams of nearby seeds are the same sequence shifted by a few
+    // steps (splitmix64 with a fixed increment) and re-synchronise at a case
+    // boundary; spread the seeds over the cycle first
+    let mut seeder = Rng::new(opts.seed);
+    let spread = seeder.next() ^ seeder.next().rotate_left(17) ^ 0xC08;
+    let mut r = Rng::new(spread);
     let max_inst = 14;
     if let Some(cases) = replay {
         for c in cases {
